@@ -20,7 +20,8 @@ VOID = {"query_nickname", "timed_pause", "xy_move", "abs_move", "motors_disable"
 VERSION_LINE = "EBBv13_and_above EB Firmware Version %s"
 # = EBB3Ops!DevVersions (cross-checked by check_dev_versions)
 DEV_VERSIONS = {"ebb_ok": "3.0.3", "ebb_late": "3.0.3", "ebb_old": "2.8.1", "ebb_min": "3.0.2", "ebb_below": "3.0.1", "ebb_v3_0_10": "3.0.10",
-                "ebb_v10": "10.0.0", "ebb_v2_10_9": "2.10.9"}
+                "ebb_v10": "10.0.0", "ebb_v2_10_9": "2.10.9", "ebb_late_old": "2.8.1"}
+LATE = ("ebb_late", "ebb_late_old")
 VERSION_DEVS = ("ebb_min", "ebb_below", "ebb_v3_0_10", "ebb_v10", "ebb_v2_10_9")
 
 
@@ -184,7 +185,7 @@ class ScriptedPort(ebbfake.PortExtras):
             d = self.dev
             if d == "raise_on_probe":
                 self.hand = ("raise", None)
-            elif d == "silent" or (d == "ebb_late" and self.probes == 1):
+            elif d == "silent" or (d in LATE and self.probes == 1):
                 self.hand = ("empty", None)
             elif d == "non_ebb":
                 self.hand = ("line", "Hello, I am not the board you are looking for")
